@@ -479,8 +479,8 @@ func driveRecover(c *ctx) {
 	}
 	for i := 0; i < c.scale(10, 100); i++ {
 		s := add(randBig(rng, add(bigN, -1)), 1)
-		allV(randBytes(rng, 32), randBig(rng, span), s, false, "", false)                            // small r: bit 1 admissible iff on curve
-		allV(randBytes(rng, 32), new(big.Int).Add(span, randBig(rng, span)), s, false, "", false)    // r >= p - n: bit 1 must fail
+		allV(randBytes(rng, 32), randBig(rng, span), s, false, "", false)                         // small r: bit 1 admissible iff on curve
+		allV(randBytes(rng, 32), new(big.Int).Add(span, randBig(rng, span)), s, false, "", false) // r >= p - n: bit 1 must fail
 		allV(randBytes(rng, 32), randBig(rng, bigN), s, false, "", false)
 	}
 	for _, r := range []*big.Int{add(span, -1), span, add(span, 1)} {
